@@ -290,14 +290,14 @@ static int mk_socketpair(int sv[2])
 	evutil_make_socket_nonblocking(sv[0]); evutil_make_socket_nonblocking(sv[1]);
 	return 0;
 }
-/* a loopback TCP/UDP port with nothing behind it */
+/* a loopback TCP port that refuses connections: bound, never listening, and kept open until the
+ * end-of-execution hygiene closes it, so that no other process on this (shared) machine can take it */
 static int closed_port(int type)
 {
 	struct sockaddr_in sin; socklen_t l = sizeof sin;
 	int s = socket(AF_INET, type, 0);
 	memset(&sin, 0, sizeof sin); sin.sin_family = AF_INET; sin.sin_addr.s_addr = htonl(0x7f000001);
 	if (s < 0 || bind(s, (struct sockaddr *)&sin, sizeof sin) < 0 || getsockname(s, (struct sockaddr *)&sin, &l) < 0) { perror("closed_port"); abort(); }
-	close(s);
 	return ntohs(sin.sin_port);
 }
 /* a bound loopback UDP socket (nobody reads it unless the scenario does) */
@@ -374,6 +374,15 @@ static int decode_fault(const struct scount *c, int idx, struct fault *f)
 	}
 	return 0;
 }
+/* a position the fault-free run never reaches (margin): it can only fire when another fault changed
+ * the path, so a pair of two such positions is the same execution as no fault at all */
+static int fault_in_margin(const struct scount *c, int idx)
+{
+	struct fault f;
+	if (!decode_fault(c, idx, &f)) return 0;
+	if (f.kind == 1) return f.k > c->allocs;
+	return f.k > c->sys[f.which];
+}
 static void describe_fault(const struct fault *f, char *buf, size_t n)
 {
 	if (f->kind == 1) snprintf(buf, n, "alloc#%ld", f->k);
@@ -391,6 +400,7 @@ static void body(void)
 	int f1 = mc_choose(c->K, 1, "fault1"), f2 = 0;
 	if (f1) f2 = mc_choose(c->K, 1, "fault2");
 	if (f2 && f2 <= f1) { MC_COUNT("skipped_unordered_fault_pairs"); return; }   /* {f1,f2} is a set: explored as f1<f2 */
+	if (f2 && fault_in_margin(c, f1) && fault_in_margin(c, f2)) { MC_COUNT("skipped_pairs_both_beyond_fault_free_path"); return; }
 	n_plan = 0;
 	if (decode_fault(c, f1, &plan[n_plan])) n_plan++;
 	if (decode_fault(c, f2, &plan[n_plan])) n_plan++;
